@@ -73,6 +73,7 @@ Definition spec_classes : list (string * N) := [
   ("referenceOpType", c_function); ("envsubstOpType", c_function); ("nowOpType", c_function);
   ("tzOpType", c_function); ("fromUnixOpType", c_function); ("toUnixOpType", c_function);
   ("formatDateTimeOpType", c_function); ("withDtFormatOpType", c_function);
+  ("minOpType", c_function); ("maxOpType", c_function);
   (* functions whose result may be traversed directly: f(..).a  f(..)[0] *)
   ("selectOpType", c_function_post_traverse); ("mapOpType", c_function_post_traverse);
   ("mapValuesOpType", c_function_post_traverse); ("filterOpType", c_function_post_traverse);
@@ -90,14 +91,6 @@ Definition spec_classes : list (string * N) := [
   ("envOpType", c_function_post_traverse); ("pivotOpType", c_function_post_traverse);
   (* path elements *)
   ("traversePathOpType", c_path); ("selfReferenceOpType", c_path); ("getVariableOpType", c_path)
-].
-
-(* The two nullary functions the specification ALSO places among the
-   functions (they are operands: `min`, `max`), kept in a separate list
-   because operation.go gives them the number of the comparison class; see
-   C09_min_max_precedence_refuted and KNOWN_FINDINGS (minmax-prec). *)
-Definition spec_classes_violated : list (string * N) := [
-  ("minOpType", c_function); ("maxOpType", c_function)
 ].
 
 (* Not specified on purpose: multiplyAssignOpType.  operation.go gives `*=`
@@ -168,15 +161,14 @@ Definition table_post_traverse_b : bool := forallb post_traverse_ok op_table.
    than every infix operator a user can write, otherwise the shunting-yard
    leaves it on the stack when the infix operator arrives and the operands
    end up in the wrong order.  The design puts del() in the comparison
-   class, so it is exempt by specification; min and max are exempt because
-   they are the recorded finding. *)
+   class, so it is exempt by specification. *)
 Definition user_infix : list string := [
   "unionOpType"; "blockOpType"; "createMapOpType"; "orOpType"; "andOpType"; "pipeOpType"; "reduceOpType";
   "assignOpType"; "addAssignOpType"; "subtractAssignOpType"; "multiplyAssignOpType"; "assignVariableOpType";
   "equalsOpType"; "notEqualsOpType"; "compareOpType"; "multiplyOpType"; "divideOpType"; "moduloOpType";
   "addOpType"; "subtractOpType"; "alternativeOpType"; "shortPipeOpType"].
 
-Definition operand_exempt : list string := ["deleteChildOpType"; "minOpType"; "maxOpType"].
+Definition operand_exempt : list string := ["deleteChildOpType"].
 
 Definition operand_ok (oi : opinfo) : bool :=
   if (oi_nargs oi <=? 1) && negb (existsb (fun n => str_eqb (oi_var oi) (str_of_string n)) operand_exempt) then
